@@ -140,6 +140,34 @@ fn replay(path: &str) -> i32 {
     };
     let def = find(v["property"].as_str().unwrap_or(""));
     println!("replaying property={} signature={}", def.id, v["signature"].as_str().unwrap_or(""));
+    if let Some(h) = v["case"].get("__history__") {
+        // re-run the whole deterministic call sequence of one worker shard and look for the same violation
+        let tier = if h["tier"].as_str() == Some("thorough") { Tier::Thorough } else { Tier::Quick };
+        let mut ctx = Ctx {
+            prop: def.id.to_string(),
+            tier,
+            seed: h["seed"].as_u64().unwrap_or(0),
+            shard: h["shard"].as_u64().unwrap_or(0) as usize,
+            nshards: h["nshards"].as_u64().unwrap_or(16) as usize,
+            deadline: Instant::now() + Duration::from_secs((def.budget_s)(tier) * 3),
+            journal: None,
+        };
+        let mut rep = Report::default();
+        (def.run)(&mut ctx, &mut rep);
+        let want_sig = v["case"]["sig"].as_str().unwrap_or("");
+        let want_case = &v["case"]["case"];
+        println!("replayed the call history of worker shard {}/{} ({} transitions)", ctx.shard, ctx.nshards, rep.transitions);
+        return match rep.violations.iter().find(|x| x.sig == want_sig && x.case == *want_case) {
+            Some(x) => {
+                println!("STILL VIOLATES: {} (in this history)", x.what);
+                1
+            }
+            None => {
+                println!("PASS: the violation does not occur in this history");
+                0
+            }
+        };
+    }
     match (def.replay)(&v["case"]) {
         Ok(desc) => {
             println!("PASS: {}", desc);
@@ -186,6 +214,24 @@ fn check(id: &str, tier: Tier) -> i32 {
         let (c1, t1) = replay_subprocess(&path, Duration::from_secs(120));
         let (c2, _t2) = replay_subprocess(&path, Duration::from_secs(120));
         let reproduced = |c: i32| c == 1 || c < 0 || c == 101 || c == 134 || c == 139;
+        let mut v = v.clone();
+        let mut path = path;
+        let (mut c1, mut c2, mut t1) = (c1, c2, t1);
+        if c1 == 0 && c2 == 0 && v.shard.is_some() && v.case.get("__history__").is_none() {
+            // The case passes when run alone in a fresh process: the verdict depended on calls made earlier
+            // by the same worker. Replay that worker's whole (deterministic) sequence of calls instead.
+            let hist = json!({"__history__": {"tier": tier.name(), "shard": v.shard.unwrap(), "nshards": nshards, "seed": seed}, "sig": v.sig, "case": v.case});
+            let hv = Violation { shard: v.shard, sig: v.sig.clone(), what: format!("{} [only after the calls this worker process made before it: the result depends on earlier calls]", v.what), case: hist };
+            let _ = std::fs::remove_file(&path);
+            path = write_replay(def.id, i, &hv);
+            let (h1, ht) = replay_subprocess(&path, Duration::from_secs(budget * 3 + 60));
+            let (h2, _) = replay_subprocess(&path, Duration::from_secs(budget * 3 + 60));
+            c1 = h1;
+            c2 = h2;
+            t1 = ht;
+            v = hv;
+        }
+        let v = &v;
         if c1 != c2 || !reproduced(c1) {
             machinery_fail.push(format!(
                 "violation {} did not reproduce deterministically on replay (exit {} / {}): {} [{}]",
@@ -200,7 +246,7 @@ fn check(id: &str, tier: Tier) -> i32 {
             }
             let _ = std::fs::remove_file(&path);
         } else {
-            fresh.push((path, v.clone()));
+            fresh.push((path.clone(), v.clone()));
         }
     }
     for l in &known_hits {
